@@ -38,6 +38,11 @@ pub struct DAssets {
     pub older: BTreeSet<u32>,
     /// 65-byte (SIGHASH_ALL) instead of 64-byte (default) schnorr signatures
     pub schnorr_all: bool,
+    /// raw key-hash atoms: the key behind atom `h` is known (`lookup_raw_pkh_pk` /
+    /// `lookup_raw_pkh_x_only_pk`); its signature is available iff `h % 100` is in `keys`
+    /// (`lookup_raw_pkh_ecdsa_sig` / `lookup_raw_pkh_tap_leaf_script_sig`).  Empty = the
+    /// satisfier has no raw-pkh lookups at all (the behaviour other modules rely on).
+    pub rawpk: BTreeSet<u32>,
 }
 
 impl DAssets {
@@ -46,9 +51,10 @@ impl DAssets {
             let v: Vec<String> = i.map(|x| x.to_string()).collect();
             if v.is_empty() { "-".into() } else { v.join(",") }
         }
-        format!("k={};tk={};p={};o={};a={};sa={}", j(self.keys.iter()), self.tapkey as u8,
+        let base = format!("k={};tk={};p={};o={};a={};sa={}", j(self.keys.iter()), self.tapkey as u8,
             j(self.pre.iter().map(|(k, h)| format!("{}:{}", k.name(), h))), j(self.older.iter()),
-            j(self.after.iter()), self.schnorr_all as u8)
+            j(self.after.iter()), self.schnorr_all as u8);
+        if self.rawpk.is_empty() { base } else { format!("{};rk={}", base, j(self.rawpk.iter())) }
     }
     /// nLockTime / nSequence meeting every lock the assets declare available
     pub fn tx_fields(&self) -> (u32, u32) {
@@ -159,6 +165,28 @@ impl Satisfier<PublicKey> for TxSat {
         let s = taproot::Signature { signature: sig, sighash_type: ty };
         self.issued.borrow_mut().push((pk.inner.x_only_public_key().0.serialize().to_vec(), s.to_vec()));
         Some(s)
+    }
+    fn lookup_raw_pkh_pk(&self, h: &hash160::Hash) -> Option<PublicKey> {
+        let id = crate::msops::rawpkh_id(h)?;
+        if id < 200 && self.assets.rawpk.contains(&id) { Some(ast::full_key(id)) } else { None }
+    }
+    fn lookup_raw_pkh_x_only_pk(&self, h: &hash160::Hash) -> Option<XOnlyPublicKey> {
+        let id = crate::msops::rawpkh_id(h)?;
+        if id >= 200 && self.assets.rawpk.contains(&id) { Some(ast::xonly_key(id)) } else { None }
+    }
+    fn lookup_raw_pkh_ecdsa_sig(&self, h: &hash160::Hash) -> Option<(PublicKey, ecdsa::Signature)> {
+        let id = crate::msops::rawpkh_id(h)?;
+        if id >= 200 || !self.assets.rawpk.contains(&id) { return None; }
+        let pk = ast::full_key(id);
+        let s = self.ecdsa.get(&(id % 100)).cloned()?;
+        self.issued.borrow_mut().push((pk.to_bytes(), s.to_vec()));
+        Some((pk, s))
+    }
+    fn lookup_raw_pkh_tap_leaf_script_sig(&self, h: &(hash160::Hash, TapLeafHash)) -> Option<(XOnlyPublicKey, taproot::Signature)> {
+        let id = crate::msops::rawpkh_id(&h.0)?;
+        if id < 200 || !self.assets.rawpk.contains(&id) { return None; }
+        let s = self.lookup_tap_leaf_script_sig(&ast::full_key(id), &h.1)?;
+        Some((ast::xonly_key(id), s))
     }
     fn lookup_sha256(&self, h: &sha256::Hash) -> Option<[u8; 32]> {
         let id = hash_id(HK::Sha256, h.as_byte_array())?;
@@ -347,6 +375,7 @@ pub fn wit_wire(w: &[Vec<u8>]) -> String {
 /// Judge one produced spend with the Lean `verifySpend`.
 pub fn judge_spend(out: &mut Out, info: &str, sat: &TxSat, script_sig: &ScriptBuf, witness: &[Vec<u8>]) {
     let mut cands = sat.issued.borrow().clone();
+    cands.sort(); cands.dedup();
     if let Some(s) = &sat.tap_key_sig {
         // key-path candidate is checked against the output key inside register_valid
         cands.push((vec![], s.to_vec()));
@@ -420,4 +449,98 @@ pub fn satisfy_and_judge(out: &mut Out, desc: &Descriptor<PublicKey>, assets: &D
             true
         }
     }
+}
+
+/* ---------------------------------------------------------------- the PSBT route */
+
+/// `Descriptor<PublicKey>` -> `Descriptor<DefiniteDescriptorKey>` with plain single keys (no
+/// origin), as `update_input_with_descriptor` wants it
+pub struct ToDefSingle;
+impl miniscript::Translator<PublicKey> for ToDefSingle {
+    type TargetPk = miniscript::DefiniteDescriptorKey;
+    type Error = ();
+    fn pk(&mut self, pk: &PublicKey) -> Result<miniscript::DefiniteDescriptorKey, ()> {
+        use miniscript::descriptor::{DescriptorPublicKey, SinglePub, SinglePubKey};
+        miniscript::DefiniteDescriptorKey::new(DescriptorPublicKey::Single(SinglePub { origin: None, key: SinglePubKey::FullKey(*pk) })).map_err(|_| ())
+    }
+    fn sha256(&mut self, h: &sha256::Hash) -> Result<sha256::Hash, ()> { Ok(*h) }
+    fn hash256(&mut self, h: &hash256::Hash) -> Result<hash256::Hash, ()> { Ok(*h) }
+    fn ripemd160(&mut self, h: &ripemd160::Hash) -> Result<ripemd160::Hash, ()> { Ok(*h) }
+    fn hash160(&mut self, h: &hash160::Hash) -> Result<hash160::Hash, ()> { Ok(*h) }
+}
+
+/// a satisfier over a transaction whose input really spends output 1 of `prev` (needed by
+/// `update_input_with_descriptor` for pre-segwit outputs: `non_witness_utxo`)
+pub fn tx_sat_psbt(desc: &Descriptor<PublicKey>, assets: &DAssets) -> (TxSat, Transaction) {
+    let (lt, sq) = assets.tx_fields();
+    let prevout = TxOut { value: Amount::from_sat(VALUE), script_pubkey: desc.script_pubkey() };
+    let prev = Transaction {
+        version: transaction::Version::TWO,
+        lock_time: absolute::LockTime::ZERO,
+        input: vec![TxIn { previous_output: OutPoint { txid: Txid::from_byte_array([0x22; 32]), vout: 0 },
+            script_sig: ScriptBuf::new(), sequence: Sequence::MAX, witness: Witness::new() }],
+        output: vec![TxOut { value: Amount::from_sat(5000), script_pubkey: ScriptBuf::from_bytes(vec![0x51]) }, prevout.clone()],
+    };
+    let mut tx = make_tx(lt, sq);
+    tx.input[0].previous_output = OutPoint { txid: prev.compute_txid(), vout: 1 };
+    let tap = match desc {
+        Descriptor::Tr(tr) => key_id_full(tr.internal_key()).map(|id| (id % 100, tr.spend_info().merkle_root())),
+        _ => None,
+    };
+    (TxSat::new(assets.clone(), tx, prevout, presign_code(desc), tap), prev)
+}
+
+/// PSBT route: fill a one-input PSBT from what `sat` holds (through
+/// `update_input_with_descriptor` + signature / preimage fields), finalize it in the given mode
+/// and return what the finalizer wrote.  `None` = the route did not produce a spend.
+pub fn psbt_finalize_route(desc: &Descriptor<PublicKey>, sat: &TxSat, prev: &Transaction, mall: bool)
+    -> Option<(Vec<Vec<u8>>, ScriptBuf)> {
+    use miniscript::psbt::PsbtExt;
+    use miniscript::bitcoin::psbt::Psbt;
+    use miniscript::{ForEachKey, TranslatePk};
+    let dd = desc.translate_pk(&mut ToDefSingle).ok()?;
+    let mut psbt = Psbt::from_unsigned_tx(sat.tx.clone()).ok()?;
+    if desc.desc_type().segwit_version().is_some() { psbt.inputs[0].witness_utxo = Some(sat.prevout.clone()); }
+    else { psbt.inputs[0].non_witness_utxo = Some(prev.clone()); }
+    psbt.update_input_with_descriptor(0, &dd).ok()?;
+    // signatures
+    let mut keys: Vec<PublicKey> = vec![];
+    desc.for_each_key(|k| { keys.push(*k); true });
+    match desc {
+        Descriptor::Tr(tr) => {
+            psbt.inputs[0].tap_key_sig = sat.tap_key_sig;
+            let info = tr.spend_info();
+            for leaf in info.leaves() {
+                let lh = leaf.leaf_hash();
+                let mut lk: Vec<PublicKey> = vec![];
+                leaf.miniscript().for_each_key(|k| { lk.push(*k); true });
+                for k in lk {
+                    if let Some(s) = sat.lookup_tap_leaf_script_sig(&k, &lh) {
+                        psbt.inputs[0].tap_script_sigs.insert((k.inner.x_only_public_key().0, lh), s);
+                    }
+                }
+            }
+        }
+        _ => {
+            for k in keys {
+                if let Some(s) = sat.lookup_ecdsa_sig(&k) { psbt.inputs[0].partial_sigs.insert(k, s); }
+            }
+        }
+    }
+    for (kind, id) in &sat.assets.pre {
+        let v = ast::hash_value(*kind, *id);
+        let p = ast::preimage(*id).to_vec();
+        match kind {
+            HK::Sha256 => { psbt.inputs[0].sha256_preimages.insert(sha256::Hash::from_slice(&v).ok()?, p); }
+            HK::Hash256 => { psbt.inputs[0].hash256_preimages.insert(miniscript::bitcoin::hashes::sha256d::Hash::from_slice(&v).ok()?, p); }
+            HK::Ripemd160 => { psbt.inputs[0].ripemd160_preimages.insert(ripemd160::Hash::from_slice(&v).ok()?, p); }
+            HK::Hash160 => { psbt.inputs[0].hash160_preimages.insert(hash160::Hash::from_slice(&v).ok()?, p); }
+        }
+    }
+    let r = if mall { psbt.finalize_mall_mut(secp()) } else { psbt.finalize_mut(secp()) };
+    r.ok()?;
+    let inp = &psbt.inputs[0];
+    let ss = inp.final_script_sig.clone().unwrap_or_default();
+    let w: Vec<Vec<u8>> = inp.final_script_witness.as_ref().map(|w| w.to_vec()).unwrap_or_default();
+    Some((w, ss))
 }
